@@ -168,7 +168,7 @@ EvD(tr, st) ==
            ELSE DLogic(op, l[1], r[1]), r[2]>>
     [] tr[1] = "call" ->
          LET r == EvDArgs(tr[3], st, <<>>)  a == r[1]  s1 == r[2]  f == tr[2] IN
-         IF FirstBad(a) # 0 THEN <<a[FirstBad(a)], s1>>
+         IF \E k \in 1..Len(a) : IsErr(a[k]) THEN <<a[CHOOSE k \in 1..Len(a) : IsErr(a[k])], s1>>    \* an error stops the statement
          ELSE IF f \in DevFuns THEN
             (IF s1.dev = <<>> THEN <<Sym, [s1 EXCEPT !.status = "unjudged", !.why = "device-script-exhausted"]>>
              ELSE <<DevVal(f, s1.dev[1]), [s1 EXCEPT !.dev = Tail(@), !.calls = Append(@, <<f, a>>)]>>)
@@ -203,7 +203,7 @@ BBool(op, a, b) ==
 VarGetB(st, name) ==
   IF name = "PLAY.OCTO" THEN Num(st.oct)
   ELSE IF name \in RuntimeRefs THEN Ref(name)
-  ELSE IF HasKey(st.env, name) THEN st.env[name] ELSE Undef
+  ELSE IF HasKey(st.env, name) THEN st.env[name] ELSE UndefOf(name)
 RECURSIVE EvB(_, _)
 EvBArgs(args, st) == [k \in 1..Len(args) |-> EvB(args[k], st)]
 EvB(tr, st) ==
@@ -220,7 +220,7 @@ EvB(tr, st) ==
          ELSE IF ~IdxInts(vals) THEN Sym
          ELSE IF Len(vals) # Len(st.arr[tr[2]].dims) THEN Err("subscript-count")
          ELSE IF ~InRange(IdxOf(vals), st.arr[tr[2]].dims) THEN Err("subscript-range")
-         ELSE IF HasKey(st.arr[tr[2]].cells, IdxOf(vals)) THEN st.arr[tr[2]].cells[IdxOf(vals)] ELSE Undef
+         ELSE IF HasKey(st.arr[tr[2]].cells, IdxOf(vals)) THEN st.arr[tr[2]].cells[IdxOf(vals)] ELSE UndefOf(tr[2])
     [] tr[1] = "un" ->
          LET a == EvB(tr[3], st) IN
          IF IsBad(a) THEN a
@@ -330,12 +330,12 @@ StoreB(st, lv, v0, sk) ==
      ELSE IF ~TypeOkB(lv[3], v0) THEN Stop(st, "error", "type:assignment")
      ELSE IF TooLong(st, lv[2], v0) THEN Stop(st, "unjudged", "string-exceeds-declared-size")
      ELSE LET v == Trunc2(st, lv[2], v0)
-              old == IF HasKey(st.env, lv[2]) THEN st.env[lv[2]] ELSE Undef IN
+              old == IF HasKey(st.env, lv[2]) THEN st.env[lv[2]] ELSE UndefOf(lv[2]) IN
           [st EXCEPT !.env = Put(@, lv[2], v),
                      !.obs = IF ~IsUser(lv[2]) \/ SameVal(old, v, lv[3]) THEN @ ELSE Append(@, Ob("set", lv[2], <<>>, <<v>>, sk))]
   ELSE LET vals == EvBArgs(lv[3], st) IN
        IF FirstBad(vals) # 0 THEN
-          (IF vals[FirstBad(vals)][1] = "undef" THEN [Stop(st, "undef", "subscript") EXCEPT !.rdundef = "subscript"]
+          (IF vals[FirstBad(vals)][1] = "undef" THEN [Stop(st, "undef", "subscript") EXCEPT !.rdundef = vals[FirstBad(vals)][2]]
            ELSE IF vals[FirstBad(vals)][1] = "sym" THEN Stop(st, "unjudged", "sym-subscript")
            ELSE Stop(st, "error", vals[FirstBad(vals)][2]))
        ELSE IF ~HasKey(st.arr, lv[2]) THEN Stop(st, "error", "undeclared-array")
@@ -346,7 +346,7 @@ StoreB(st, lv, v0, sk) ==
        ELSE IF ~TypeOkB(lv[4], v0) THEN Stop(st, "error", "type:assignment")
        ELSE IF TooLong(st, lv[2], v0) THEN Stop(st, "unjudged", "string-exceeds-declared-size")
        ELSE LET ix == IdxOf(vals)  v == Trunc2(st, lv[2], v0)
-                old == IF HasKey(st.arr[lv[2]].cells, ix) THEN st.arr[lv[2]].cells[ix] ELSE Undef IN
+                old == IF HasKey(st.arr[lv[2]].cells, ix) THEN st.arr[lv[2]].cells[ix] ELSE UndefOf(lv[2]) IN
             [st EXCEPT !.arr[lv[2]].cells = Put(@, ix, v),
                        !.obs = IF SameVal(old, v, lv[4]) THEN @ ELSE Append(@, Ob("set", lv[2], ix, <<v>>, sk))]
 LvTy(lv) == IF lv[1] = "var" THEN lv[3] ELSE lv[4]
@@ -354,11 +354,13 @@ LvTy(lv) == IF lv[1] = "var" THEN lv[3] ELSE lv[4]
 \* a value that cannot be used: map to a machine status
 BadStatus(st, v, lang, what) ==
   IF v[1] = "sym" THEN Stop(st, "unjudged", "sym:" \o what)
-  ELSE IF v[1] = "undef" THEN [Stop(st, "undef", what) EXCEPT !.rdundef = what]
+  ELSE IF v[1] = "undef" THEN [Stop(st, "undef", what) EXCEPT !.rdundef = v[2]]
   ELSE Stop(st, "error", v[2] \o ":" \o what)
 
 \* ---- PRINT ----
 OutOb(v, sk) == IF v[1] = "tab" THEN Ob("out", "tabto", <<>>, <<Num(v[2])>>, sk) ELSE Ob("out", "v", <<>>, <<v>>, sk)
+\* what a numeric PRINT item looks like in the source (second half of a finding's key)
+ItemKind(tr) == IF tr[1] \in {"bin", "un", "par"} THEN "operator-expression" ELSE tr[1]
 RECURSIVE PrintD(_, _, _, _)
 PrintD(items, k, st, sk) ==
   IF st.status # "run" THEN st
@@ -369,7 +371,8 @@ PrintD(items, k, st, sk) ==
   ELSE LET r == EvD(items[k], st)  v == r[1]  s1 == r[2] IN
        IF s1.status # "run" THEN s1
        ELSE IF IsBad(v) THEN BadStatus(s1, v, "decb", "print")
-       ELSE IF IsNum(v) THEN PrintD(items, k + 1, [s1 EXCEPT !.calls = Append(@, <<"FMT", <<v>>>>), !.obs = Append(@, OutOb(Fmt(v), sk))], sk)
+       ELSE IF IsNum(v) THEN PrintD(items, k + 1, [s1 EXCEPT !.calls = Append(@, <<"FMT", <<v>>>>),
+                                                               !.obs = Append(@, OutOb(Fmt(v), sk \o ":item=" \o ItemKind(items[k])))], sk)
        ELSE IF IsStr(v) /\ v[2] = <<>> THEN PrintD(items, k + 1, s1, sk)
        ELSE PrintD(items, k + 1, [s1 EXCEPT !.obs = Append(@, OutOb(v, sk))], sk)
 PrintB(items, st, sk) ==
@@ -403,7 +406,7 @@ RunB(st, ins) ==
               \* the translator's convention: inputs first, the result variable last
               ain == IF f = "JOYSTK" /\ Len(a) >= 1 THEN <<a[1]>> ELSE a IN
           IF ~IsLValue(out) THEN Stop(st, "error", "result-parameter-not-a-variable")
-          ELSE IF \E k \in 1..Len(a) : a[k][1] = "undef" THEN [Stop(st, "undef", "run-argument") EXCEPT !.rdundef = "run-argument"]
+          ELSE IF \E k \in 1..Len(a) : a[k][1] = "undef" THEN [Stop(st, "undef", "run-argument") EXCEPT !.rdundef = a[CHOOSE k \in 1..Len(a) : a[k][1] = "undef"][2]]
           ELSE IF f \in DevFuns THEN
                (IF st.dev = <<>> THEN Stop(st, "unjudged", "device-script-exhausted")
                 ELSE LET v == DevVal(f, st.dev[1]) IN
@@ -428,7 +431,7 @@ RunB(st, ins) ==
          names == BoundNames(kind)
          at(p, k) == LET q == PosIn(lp, p) IN IF q = 0 THEN k ELSE q       \* positional fallback
          vals == [k \in 1..Len(names) |-> IF at(names[k], k) <= n THEN a[at(names[k], k)] ELSE <<"missing", 0, 0>>] IN
-     IF \E k \in 1..n : a[k][1] = "undef" THEN [Stop(st, "undef", "run-argument") EXCEPT !.rdundef = "run-argument"]
+     IF \E k \in 1..n : a[k][1] = "undef" THEN [Stop(st, "undef", "run-argument") EXCEPT !.rdundef = a[CHOOSE k \in 1..n : a[k][1] = "undef"][2]]
      ELSE IF \E k \in 1..n : IsErr(a[k]) THEN Stop(st, "error", "argument:" \o proc)
      ELSE [nxt EXCEPT !.obs = Append(@, Ob("dev", proc, <<n>>, vals, "RUN"))]
   ELSE Stop(st, "error", "run-unknown-procedure:" \o proc)
@@ -484,7 +487,7 @@ Step(prog, lang, st0) ==
             ELSE LET s2 == StoreD(s1, lv, ri[1], v, ins.sk) IN IF s2.status = "run" THEN [s2 EXCEPT !.pc = @ + 1] ELSE s2
          ELSE
             LET v == EvB(ins.e, st) IN
-            IF v[1] = "undef" THEN [Stop(st, "undef", "assignment") EXCEPT !.rdundef = "assignment"]
+            IF v[1] = "undef" THEN [Stop(st, "undef", "assignment") EXCEPT !.rdundef = v[2]]
             ELSE IF v[1] = "err" THEN Stop(st, "error", v[2] \o ":assignment")
             ELSE IF IsBool(v) THEN Stop(st, "error", "type:assignment")
             ELSE StoreB(nxt, ins.e2, v, "LET")
@@ -627,7 +630,7 @@ Step(prog, lang, st0) ==
          ELSE DevD(st, ins)
     [] ins.op = "POKE" ->
          LET a == EvB(ins.e, st)  b == EvB(ins.e2, st) IN
-         IF a[1] = "undef" \/ b[1] = "undef" THEN [Stop(st, "undef", "poke") EXCEPT !.rdundef = "poke"]
+         IF a[1] = "undef" \/ b[1] = "undef" THEN [Stop(st, "undef", "poke") EXCEPT !.rdundef = IF a[1] = "undef" THEN a[2] ELSE b[2]]
          ELSE IF IsErr(a) \/ IsErr(b) THEN Stop(st, "error", "poke")
          ELSE [nxt EXCEPT !.obs = Append(@, Ob("dev", "POKE", <<>>, <<a, b>>, "POKE"))]
     [] ins.op \in {"ONERR", "ONBRK"} -> IF ins.op = "ONERR" THEN [nxt EXCEPT !.onerr = ins.n] ELSE [nxt EXCEPT !.onbrk = ins.n]
